@@ -376,6 +376,7 @@ class Typer(object):
         self.w = world
         self.changed = False
         self.narrow = []
+        self.dump_cache = {}
         for f in world.all:
             for p in f.allparams:
                 if f.is_method and p == f.params[0]:
@@ -571,8 +572,10 @@ class Typer(object):
 
     def ty(self, e):
         w = self.w
-        if self.narrow and e is not None and not isinstance(e, ast.Constant):
-            k = ast.dump(e)
+        if self.narrow and isinstance(e, (ast.Name, ast.Subscript, ast.Attribute)) and any(self.narrow):
+            k = self.dump_cache.get(id(e))
+            if k is None:
+                k = self.dump_cache[id(e)] = ast.dump(e)
             for d in reversed(self.narrow):
                 if k in d:
                     if LST in d[k]:
@@ -2542,7 +2545,75 @@ def emit_lean(world, live, sums, nfields, guards):
     return files, mods
 
 
+FAIL_TEMPLATE = """-- GENERATED by tools/py2effects.py: the translator FAILED on the current source (@WHY@).
+-- The skeleton below cannot be accepted, so the obligation check_current fails (never a silent pass).
+import Pymeeus.Spec.Effects
+import Pymeeus.Spec.Guards
+namespace Pymeeus.Effects.Current
+open Pymeeus.Effects
+def nfields : Nat := 1
+def f0 : FunDecl := ⟨"translator failure", 0, 2, blk [.global 0 0, .store 0 .elem 1], .pure, ⟨[], true, .scal⟩⟩
+def funs : List FunDecl := [f0]
+def program : Program := ⟨nfields, funs⟩
+def sums : List Summary := [⟨[], true, .scal⟩]
+def guards : List (String × List Nat × Pymeeus.Guards.GForm) := [("translator failure", [1], .ff)]
+end Pymeeus.Effects.Current
+"""
+
+FAIL_CHECKS = """import Pymeeus.Gen.Effects.Current
+namespace Pymeeus.Effects.Current
+open Pymeeus.Effects
+theorem sums_eq : program.sums = sums := by decide +kernel
+theorem all_checked : funs.all (checkFun nfields sums) = true := by decide +kernel
+end Pymeeus.Effects.Current
+"""
+
+
+def source_stamp():
+    import hashlib
+    h = hashlib.sha256()
+    h.update(open(os.path.abspath(__file__), 'rb').read())
+    h.update(PKG.encode())
+    try:
+        for fn in sorted(os.listdir(PKG)):
+            if fn.endswith('.py'):
+                h.update(fn.encode())
+                h.update(open(os.path.join(PKG, fn), 'rb').read())
+    except OSError as e:
+        h.update(repr(e).encode())
+    return h.hexdigest()
+
+
 def main():
+    d = os.path.dirname(OUT_LEAN)
+    stamp_file = os.path.join(ROOT, '.work', 'effects.stamp')
+    stamp = source_stamp()
+    plain = not any(a in sys.argv for a in ('--report', '--dump', '--force'))
+    if plain and os.path.exists(stamp_file) and open(stamp_file).read() == stamp \
+            and os.path.exists(OUT_LEAN) and os.path.exists(OUT_JSON):
+        return 0            # source and translator unchanged since the last run
+    try:
+        return main_()
+    except Exception as e:      # noqa: a source the translator cannot even read must not pass
+        import traceback
+        why = '%s: %s' % (type(e).__name__, str(e).replace('\n', ' ')[:200])
+        os.makedirs(d, exist_ok=True)
+        for fn in os.listdir(d):
+            if fn.endswith('.lean'):
+                os.remove(os.path.join(d, fn))
+        open(OUT_LEAN, 'w').write(FAIL_TEMPLATE.replace('@WHY@', why))
+        open(os.path.join(d, 'Checks.lean'), 'w').write(FAIL_CHECKS)
+        os.makedirs(os.path.dirname(OUT_JSON), exist_ok=True)
+        json.dump({'failed': why, 'trace': traceback.format_exc(), 'functions': [], 'rejected': {'translator': why},
+                   'giveups': [], 'assumptions': [], 'guards': {'guarded': [], 'unguarded': []}, 'globals': []},
+                  open(OUT_JSON, 'w'), indent=1)
+        print('py2effects: FAILED on the current source: ' + why)
+        with open(stamp_file, 'w') as fh:
+            fh.write(stamp)
+        return 0
+
+
+def main_():
     world, live, sums, rejected, nfields = build()
     guards_lean, guards_json = extract_guards(world, live)
     files, mods = emit_lean(world, live, sums, nfields, guards_lean)
@@ -2585,6 +2656,8 @@ def main():
         print('give-ups (havoc):', json.dumps(world.giveups, indent=1))
         print('assumptions:', json.dumps(sorted(world.assumptions), indent=1))
         print('writers:', [(f.qual, sums[f.id]['writes'], sums[f.id]['keeps']) for f in live if sums[f.id]['writes']])
+    with open(os.path.join(ROOT, '.work', 'effects.stamp'), 'w') as fh:
+        fh.write(source_stamp())
     return 0
 
 
